@@ -108,6 +108,9 @@ def main(tier):
     import mclib
     try:
         spawn = thread_spawn_part(ex.chk, tier)
+    except mclib.PipelineFailure as e:
+        mclib.report_pipeline_failure(chk, e, 'bin/check C15 quick')
+        return chk.finish()
     except mclib.MachineryError as e:
         print('MACHINERY-ERROR C15: %s' % e)
         return 2
